@@ -94,7 +94,7 @@ PROPS = {
     "C07": {
         "bin": "px_icy", "budget_ms": 30000, "mem_cap_mb": 2048, "wall_cap": {"quick": 600, "thorough": 2400},
         "rule": "documents: a two-layer base document varied in every single dimension, every pair of dimensions and every triple of dimensions (quick: the triples with <=100 combinations; thorough: all 255 000 triples) over 19 dimensions - layer count 1..=6, layer size "
-                "{0x0,1x1,2x2,3x1,200x2,1x120,0x2,2x0,200x120}, offsets {-50,-1,0,2,50}, all 32 flag combinations of a normal and of the base layer, 3 modes, colour tag, transparency {0,1,255}, default font page {0,255,300} (with and without a font in that slot), image layers (a picture at offsets (0,0) (1,1) (-1,0) (3,2) (0,-1); role image with its picture removed), "
+                "{0x0,1x1,2x2,3x1,200x2,1x120,0x2,2x0,200x120}, offsets {-50,-1,0,2,50}, all 32 flag combinations of a normal and of the base layer, 3 modes, colour tag, transparency {0,1,255}, default font page {0,255,300} (with and without a font in that slot), image layers (a picture at offsets (0,0) (1,1) (-1,0) (3,2) (0,-1); role image with its picture removed; a picture and visible cells on the same layer - the one listed known finding), "
                 "titles (empty, Unicode incl. astral, 300 chars, embedded NUL), 5 buffer types, 3 ice modes, 4 palette modes, 4 font modes, palettes of 16/1/17/300 colours, font slots {0}/{0,1}/{0,255,300}/{0: default font edited in place}, a palette with equal neighbouring entries, SAUCE none/plain/with comments and a 1996 date (the date is compared), "
                 "buffer sizes up to 200x120; cells: every row of length 0..=4 over 8 cell kinds (short, long char, long colour, long font page, invisible, invisible with a character / colours / other flags, transparent fg, transparent bg) in layers of width len, len+1, len+3 (row terminator placement); "
                 "non-trivial = every document (all contain visible cells)",
